@@ -43,6 +43,8 @@ class ClassEval:
         self.attrs = attrs
         self.depth = 0
         self.calls: List[str] = []
+        self.stream = None          # characters still to be read (a list), when the class reads `self.stream.char()`
+        self.emitted: List[Any] = []   # what was appended to `self.tokenQueue`
         self.patterns: Dict[str, ast.Call] = {}        # "name" / "self.name" -> re.compile(...) call node
         for st in mod.tree.body:
             self._note_pattern(st, "")
@@ -97,6 +99,17 @@ class ClassEval:
         ev = lambda x: self._value(self.ce.eval(x, self.mod, local))  # noqa: E731
         if t in ("warnings.warn",):
             return None
+        if self.stream is not None:
+            if t == "self.stream.char" and not node.args:
+                return self.stream.pop(0) if self.stream else None
+            if t == "self.stream.unget" and len(node.args) == 1:
+                c = ev(node.args[0])
+                if c is not None:
+                    self.stream.insert(0, c)
+                return None
+            if t == "self.tokenQueue.append" and len(node.args) == 1:
+                self.emitted.append(ev(node.args[0]))
+                return None
         # a match object's group()
         if isinstance(fn, ast.Attribute) and fn.attr in ("group", "groups", "start", "end") and isinstance(fn.value, ast.Name) and \
                 isinstance((local or {}).get(fn.value.id), _Match):
@@ -137,6 +150,17 @@ class ClassEval:
         env = out.env
         if isinstance(st, ast.Expr) and isinstance(st.value, ast.Call):
             if norm(st.value.func) == "warnings.warn":
+                return False
+            fn_ = st.value.func
+            # a mutating call on a concrete local container (evaluation is concrete, so aliasing is the real one)
+            if isinstance(fn_, ast.Attribute) and isinstance(fn_.value, ast.Name) and isinstance(env.get(fn_.value.id), (list, dict, set)) and \
+                    fn_.attr in ("append", "extend", "insert", "pop", "remove", "clear", "add", "discard", "update", "sort", "reverse", "setdefault") \
+                    and not st.value.keywords:
+                try:
+                    args_ = [self._value(interp.eval_expr(a, env)) for a in st.value.args]
+                except NotConstant as e:
+                    raise AnalysisError("call `%s` is not interpreted (%s)" % (norm(st.value)[:80], e))
+                getattr(env[fn_.value.id], fn_.attr)(*args_)
                 return False
             try:
                 interp.eval_expr(st.value, env)         # a call for its effect (interpreted through the expression hook)
